@@ -277,6 +277,7 @@ func (o *Overlay) checkPendingTreeMarshal(el *Roster) {
 	sl, ok := o.pendingTreeMarshal[el.ID]
 	if !ok {
 		// no tree for this roster
+		o.pendingTreeLock.Unlock()
 		return
 	}
 	for _, tm := range sl {
